@@ -251,7 +251,7 @@ def run_tie(ck, tf, n_hist, profile, configs=CONFIGS, corpus=(), kwargs_for=None
             kinds[op_kind(o)] += 1
             if x[0] == "raise":
                 errs[x[1]] += 1
-        sizes[max((len(x[1]) for o, x in zip(ops, outs) if o[0] == "iter" and x[0] == "points"), default=0)] += 1
+        sizes[max((len(x[1]) for o, x in zip(ops, outs) if o[0] in ("iter", "all") and x[0] == "points"), default=0)] += 1
     cases = done
     # shard and evaluate the model
     shard = 40
@@ -344,6 +344,15 @@ def db_check(pid, tier, seed, profile, n_quick, n_thorough, prop_module, claims_
     b = ck.build_proofs(prop_module, pre=pre, extra_targets=["Run.vo", "Refinement.vo", *extra_targets])
     n = n_quick if tier == "quick" else n_thorough
     corpus = load_corpus(pid)
+    # a few histories on databases of some hundred points (sizes around 128 / 256: thresholds inside the library)
+    nb = profile.get("bulk", 2 if tier == "quick" else 8)
+    order = [c for c in [(False, True), (True, True), (True, False), (False, False)] if c in configs] or list(configs)
+    bulk = []
+    for j in range(nb):
+        csv_b, auto_b = order[j % len(order)]
+        g = dbgen.Gen((seed << 20) + 900000 + j, dict(profile, scenario_force="bulk", p_scenario=1.0, file_obs=False))
+        bulk.append((csv_b, auto_b, g.history(csv_b)))
+    extra_cases = list(extra_cases) + bulk
     res = run_tie(ck, tf, n, profile, configs=configs, corpus=corpus, kwargs_for=kwargs_for, extra_cases=extra_cases)
     cases = res["cases"]
     mine, elsewhere, known_hits = [], Counter(), Counter()
